@@ -147,13 +147,18 @@ func labelsStr(l benchfmt.Labels) string {
 		keys = append(keys, k)
 	}
 	sort.Strings(keys)
-	parts := make([]string, len(keys))
-	for i, k := range keys {
+	var parts []string
+	for _, k := range keys {
 		v := l[k]
 		if k == "upload-time" {
 			v = "T"
 		}
-		parts[i] = hx.HexS(k) + ":" + hx.HexS(v)
+		if k == "name" && v == "" {
+			// Whether an empty benchmark name yields name="" or no name label depends on the previous
+			// line seen by the same Reader (one-entry name cache), hence on SQLite's row order.
+			continue
+		}
+		parts = append(parts, hx.HexS(k)+":"+hx.HexS(v))
 	}
 	return strings.Join(parts, ";")
 }
@@ -170,6 +175,9 @@ func specRec(r *benchfmt.Result) string {
 			if k == "upload-time" {
 				v = "T"
 			}
+			if k == "name" && v == "" {
+				continue
+			}
 			parts = append(parts, hx.HexS(k)+":"+hx.HexS(v))
 		}
 	}
@@ -183,6 +191,20 @@ func joinSorted(recs []string) string {
 	}
 	sort.Strings(recs)
 	return strings.Join(recs, ",")
+}
+
+// errTag maps the errors a query may legitimately produce to "!err"; anything else stays visible.
+func errTag(err error) string {
+	s := err.Error()
+	for _, ok := range []string{"is missing operator", "has invalid key", "missing value for key", "missing q parameter"} {
+		if strings.Contains(s, ok) {
+			return "!err"
+		}
+	}
+	if len(s) > 120 {
+		s = s[:120]
+	}
+	return "!err:" + hx.HexS(s)
 }
 
 func parseErrTag(err error) string {
@@ -209,6 +231,7 @@ func runHist(id string, c *histCase) {
 		panic(err)
 	}
 	defer d.Close()
+	db.VerifSingleConn(d)
 	a := &app.App{DB: d, FS: fs.NewMemFS(), Auth: func(w http.ResponseWriter, r *http.Request) (string, error) {
 		u, _ := hex.DecodeString(r.Header.Get("X-User"))
 		return string(u), nil
@@ -274,7 +297,7 @@ func runHist(id string, c *histCase) {
 		}
 		dbS := joinSorted(recs)
 		if dq.Err() != nil {
-			dbS = "!err"
+			dbS = errTag(dq.Err())
 		}
 		dq.Close()
 		// Client.Query (the server refuses an empty q parameter)
@@ -287,7 +310,7 @@ func runHist(id string, c *histCase) {
 		}
 		clS, spS = joinSorted(recs), joinSorted(srecs)
 		if cq.Err() != nil {
-			clS, spS = "!err", "!err"
+			clS, spS = errTag(cq.Err()), "!err"
 		}
 		cq.Close()
 		hx.Printf("obs %s q%d sql=%s db=%s cl=%s\n", id, j, sqlS, dbS, clS)
@@ -303,7 +326,7 @@ func runHist(id string, c *histCase) {
 				rows = append(rows, hx.HexS(ui.UploadID)+":"+strconv.Itoa(ui.Count))
 			}
 			if errf() != nil {
-				return "!err"
+				return errTag(errf())
 			}
 			if len(rows) == 0 {
 				return "-"
@@ -317,6 +340,9 @@ func runHist(id string, c *histCase) {
 		cS := show(cll.Next, cll.Info, cll.Err)
 		cll.Close()
 		hx.Printf("obs %s l%d db=%s cl=%s\n", id, j, dS, cS)
+		if strings.HasPrefix(cS, "!err") {
+			cS = "!err"
+		}
 		hx.Printf("sobs %s l%d res=%s\n", id, j, cS)
 	}
 }
@@ -701,6 +727,9 @@ func main() {
 		files, _ := filepath.Glob(filepath.Join(os.Getenv("VERIF_ROOT"), "corpus", "C19", "*.case"))
 		sort.Strings(files)
 		for _, f := range files {
+			if os.Getenv("VERIF_C19_FINDINGS") == "0" && strings.HasPrefix(filepath.Base(f), "findings") {
+				continue
+			}
 			data, _ := os.ReadFile(f)
 			for _, l := range strings.Split(string(data), "\n") {
 				if strings.HasPrefix(l, "case ") {
